@@ -33,7 +33,14 @@ async fn run_case(c: Case, irr_port: u16) -> Value {
     if c.op != "none" {
         faults.push((c.op.clone(), c.occ, c.kind.clone()));
     }
-    let script = Script { running: e2e::running_config(&managed), faults, fail_connections: vec![], ephemeral_name: "bgpfu".into(), chunk: 0, slow_commit: vec![], faults_only_session: None, late_ms: 0 };
+    let mut faults = faults;
+    let mut late_ms = 0;
+    if c.kind == FaultKind::ErrorReplyThenSecondPositiveReply && c.occ >= 1 {
+        // ... and both overtake the reply to the load before, whose future is the one reading
+        faults.push((c.op.clone(), c.occ - 1, FaultKind::HoldOk));
+        late_ms = 30;
+    }
+    let script = Script { running: e2e::running_config(&managed), faults, fail_connections: vec![], ephemeral_name: "bgpfu".into(), chunk: 0, slow_commit: vec![], faults_only_session: None, late_ms };
     let junos = match FakeJunos::start(script, Config::default()).await {
         Ok(j) => j,
         Err(e) => return json!({"harness_error": format!("fake junos: {e}")}),
@@ -124,9 +131,9 @@ pub fn run(cfg: &Cfg) -> i32 {
     let thorough = cfg.thorough();
     let ns: Vec<usize> = if thorough { vec![0, 1, 2, 3, 5] } else { vec![0, 2] };
     let kinds: Vec<FaultKind> = if thorough {
-        vec![FaultKind::RpcError, FaultKind::WarningThenOk, FaultKind::NoPositive, FaultKind::NotXml, FaultKind::Truncated, FaultKind::WrongMessageId, FaultKind::CloseBefore, FaultKind::CloseAfter, FaultKind::StallThenClose, FaultKind::DelayedRpcError, FaultKind::ErrorThenOk, FaultKind::ErrorWarningThenOk, FaultKind::ForeignError]
+        vec![FaultKind::RpcError, FaultKind::WarningThenOk, FaultKind::NoPositive, FaultKind::NotXml, FaultKind::Truncated, FaultKind::WrongMessageId, FaultKind::CloseBefore, FaultKind::CloseAfter, FaultKind::StallThenClose, FaultKind::DelayedRpcError, FaultKind::ErrorThenOk, FaultKind::ErrorWarningThenOk, FaultKind::ForeignError, FaultKind::ErrorReplyThenSecondPositiveReply]
     } else {
-        vec![FaultKind::RpcError, FaultKind::NoPositive, FaultKind::WrongMessageId, FaultKind::CloseBefore, FaultKind::DelayedRpcError, FaultKind::ErrorThenOk, FaultKind::ErrorWarningThenOk, FaultKind::ForeignError]
+        vec![FaultKind::RpcError, FaultKind::NoPositive, FaultKind::WrongMessageId, FaultKind::CloseBefore, FaultKind::DelayedRpcError, FaultKind::ErrorThenOk, FaultKind::ErrorWarningThenOk, FaultKind::ForeignError, FaultKind::ErrorReplyThenSecondPositiveReply]
     };
     let mut cases: Vec<Case> = Vec::new();
     for &n in &ns {
@@ -140,6 +147,8 @@ pub fn run(cfg: &Cfg) -> i32 {
             for kind in &kinds {
                 let applicable = match kind {
                     FaultKind::ErrorThenOk | FaultKind::ErrorWarningThenOk | FaultKind::DelayedRpcError => op == "load-configuration",
+                    FaultKind::ErrorReplyThenSecondPositiveReply => op == "load-configuration" && occ >= 1,
+                    FaultKind::HoldOk => false,
                     FaultKind::RpcError | FaultKind::WarningThenOk | FaultKind::NoPositive | FaultKind::WrongMessageId | FaultKind::CloseAfter | FaultKind::ForeignError => op != "hello",
                     _ => true,
                 };
